@@ -182,6 +182,26 @@ func main() {
 						if err2 != nil || optStr(ans2) != optStr(ans) {
 							return explore.Failf("after-Reset-differs", "%s vs %s", optStr(ans2), optStr(ans))
 						}
+						// "The argument is only valid until the Negotiate callback returns": the offer as the
+						// upgrader hands it over points into its read buffer; the answer must not
+						e.Reset()
+						var hdr bytes.Buffer
+						httphead.WriteOptions(&hdr, []httphead.Option{offerOption(off)})
+						raw := append([]byte{}, hdr.Bytes()...)
+						parsed, ok := httphead.ParseOptions(raw, nil)
+						if !ok || len(parsed) != 1 {
+							return explore.Failf("harness-offer-rendering", "%q", raw)
+						}
+						ans3, err3 := e.Negotiate(parsed[0])
+						if err3 != nil || optStr(ans3) != optStr(ans) {
+							return explore.Failf("parsed-offer-differs", "%s vs %s (%v)", optStr(ans3), optStr(ans), err3)
+						}
+						for i := range raw {
+							raw[i] = 0xDD
+						}
+						if optStr(ans3) != optStr(ans) {
+							return explore.Failf("answer-refers-to-the-offer's-memory", "after the caller reused the buffer the offer was parsed in, the answer reads %q (was %q)", optStr(ans3), optStr(ans))
+						}
 						t.Outcome("accepted")
 						return nil
 					})
